@@ -2093,6 +2093,9 @@ func (c *BytecodeCompiler) compileContinueExpressionNode(node *ast.ContinueExpre
 	if finallyCount <= 0 {
 		c.leaveScopeOnContinue(location.StartPos.Line, labelName)
 
+		if c.additionalAbortChecks {
+			c.emit(location.StartPos.Line, bytecode.CHECK_ABORT)
+		}
 		continueJumpOffset := c.emitJump(location.StartPos.Line, bytecode.LOOP)
 		c.addLoopJumpTo(loop, bytecodeContinueLoopJump, continueJumpOffset)
 		return
